@@ -7,12 +7,18 @@ OVERRIDABLE = ("raise", "stop", "fail", "print")
 def effective(policy, override):
     """effective flag = validation-mode override if present else policy"""
     f = {k: (k in policy) for k in ("raise", "collect", "stop", "fail", "print")}
-    if override:
-        if override.startswith("no-") and override[3:] in OVERRIDABLE:
-            f[override[3:]] = False
-        elif override in OVERRIDABLE:
-            f[override] = True
-    return f, (override == "match")
+    match = False
+    # a validation-mode comment may carry several settings: 'match, stop'
+    for part in [x.strip() for x in (override or "").split(",") if x.strip()]:
+        if part.startswith("no-") and part[3:] in OVERRIDABLE:
+            f[part[3:]] = False
+        elif part in OVERRIDABLE:
+            f[part] = True
+        elif part == "match":
+            match = True
+        elif part == "no-match":
+            match = False
+    return f, match
 
 
 def expect(policy, override, bad, scanned):
